@@ -80,6 +80,26 @@ def check(ctx):
         if fc % 97 == 0:
             lines.append("cls 1 " + (pre[:rnd.randrange(0, len(pre) + 1)].hex() or "-"))
     fw.run_suite(ctx, exe, "S-cls/radiotap", lines, "frame classification")
+    # any field of the radiotap header other than FLAGS must be irrelevant to the slicing: random field subsets
+    # (every defined field occurs) with random values, FLAGS present/absent with the FCS bit both ways
+    lines = []
+    defined = [0, 1, 2, 3, 4, 5, 6, 7, 8, 9, 10, 11, 12, 13, 14, 15, 16, 17, 19, 20, 21, 22]
+    for i in range(6000 if thorough else 1500):
+        fs = sorted(set(rnd.sample(defined, rnd.randrange(1, 9)) + [defined[i % len(defined)]]))
+        fl = rnd.getrandbits(8)
+        vals = {}
+        if 1 in fs:
+            vals[1] = bytes([fl])
+        fcs = 1 in fs and bool(fl & 0x10)
+        pre = rtbuild.build([{"fields": fs, "values": vals}], rnd)
+        fc = rnd.choice([0x0080, 0x8080, 0x0088, 0x00c8, 0x0008, 0x00b4, 0x00d4, 0x0040, rnd.getrandbits(16)])
+        fc0, fc1 = fc & 0xff, fc >> 8
+        h = hdr_len(fc0, fc1)
+        L = rnd.choice([h - 1, h, h, h + 1, h + 4, h + 30])
+        fr = (bytes([fc0, fc1]) + payload(rnd, max(0, L - 2)))[:max(L, 0)]
+        tail = (zlib.crc32(fr) & 0xffffffff).to_bytes(4, "little") if fcs else b""
+        lines.append("cls 1 " + ((pre + fr + tail).hex() or "-"))
+    fw.run_suite(ctx, exe, "S-cls/radiotap-fields", lines, "frame classification")
     # radiotap mode on frames without a radiotap header and vice versa
     mixed = []
     for _ in range(2000):
